@@ -3,6 +3,7 @@
 package props
 
 import (
+	"bytes"
 	"fmt"
 	"math/big"
 
@@ -37,6 +38,20 @@ func init() {
 			return map[string]int64{"hash": 1000, "reduce": 5000, "reduce:multiple-of-n": 50, "reduce:result<3": 20, "dst:oversize": 50, "panic:empty-dst": 3, "reduce:top-bits-set": 500, "reuse-sequences": 100, "concurrent-batches": 4}
 		},
 	})
+
+	Registry["C09"].ColdStart = func(c *mon.Ctx) {
+		r := c.SharedRng(fmt.Sprintf("cold%d", c.Shard))
+		cs := &h2cCase{Fn: []string{"H2S", "E2G", "H2S"}[c.Shard%3], Layout: "exact", Class: "concurrent-cold-start"}
+		if "H2S" == "H2S" {
+			cs.Fn = "H2S"
+		}
+
+		for g := 0; g < 16; g++ {
+			cs.Conc = append(cs.Conc, h2cPair{Msg: mon.H(r.Bytes(4 + g)), Dst: mon.H(r.Bytes([]int{20, 300}[g%2]))})
+		}
+
+		h2cRunHistory(c, cs)
+	}
 }
 
 func c09Generate(c *mon.Ctx) {
@@ -240,8 +255,15 @@ func c09Run(c *mon.Ctx, csAny any) {
 
 		var s *secp256k1.Scalar
 
+		msgWas, dstWas := append([]byte{}, msg...), append([]byte{}, dst...)
+
 		c.Eval(1)
 		pan, pv := mon.Call(func() { s = secp256k1.HashToScalar(msg, dst) })
+
+		if !bytes.Equal(msg, msgWas) || !bytes.Equal(dst, dstWas) {
+			c.Fail(fmt.Sprintf("HashToScalar changed the contents of its message/DST arguments (layout %s)", cs.H.Layout), "h2s-mutates-arguments", nil)
+			return
+		}
 
 		if len(dst) == 0 {
 			c.Count("panic:empty-dst")
